@@ -46,7 +46,13 @@ RULE = ("seeded random tags over TDRC/TDOR/TDRL (every precision, several values
         "one version only, conflicting old+new frames; x update_to_v23 / update_to_v24 / separators '/', ';', None, ' / ' / ID3v1 option 0,1,2 / existing file content; hand-built "
         "v2.2 / v2.3 / v2.4 tags (recording date at every precision or absent, original year, people lists, picture) alone and followed by an ID3v1 block (year equal to / different "
         "from / absent, other fields filled or blank), loaded with v2_version=target and load_v1=False, with every default (+ update_to_v23 for a v2.3 target) and with "
-        "v2_version=target, saved as v2.4 and as v2.3 (the v2 tag has precedence over ID3v1 for every field it carries), and the sample files; histories on one in-memory object per generated tag (convert + save twice + save over the own output + convert again, "
+        "v2_version=target, saved as v2.4 and as v2.3 (the v2 tag has precedence over ID3v1 for every field it carries), and the sample files; hand-built v2.2 / v2.3 / v2.4 tags holding "
+        "the same text frame (TPE1/TP1, TIT2/TT2, TCOM/TCM, TXXX/TXX with equal descriptions) two and three times in every order of the encodings the version allows "
+        "(Latin-1, UTF-16 with BOM; UTF-16BE and UTF-8 in v2.4), text inside / outside Latin-1, equal and different values, loaded with the default translation "
+        "(ID3(f), ID3(f, v2_version=3), ID3(f) + update_to_v23) and saved as v2.4 and v2.3 with separator None, '/', ';'; hand-built v2.2 / v2.3 / v2.4 "
+        "sources with frames of unknown ids (payload 1, 127, 128, 300, 16384 bytes; with and without padding; TPE1 made unknown through known_frames) saved as the other and as "
+        "the same version (valid for the declared version, known values survive, a carried-over unknown frame is in the target format); v2.2 PIC / v2.3 APIC with the image "
+        "formats PNG, JPG, GIF of every picture type 0..20 with descriptions, converted to v2.4 and v2.3 (type, description, data, mime); histories on one in-memory object per generated tag (convert + save twice + save over the own output + convert again, "
         "copy/convert/save/restore twice then v2.4, EasyID3 v2.3 twice then v2.4 with musician credits added through the EasyID3 keys, v2.3 form -> update_to_v24 saved twice, "
         "held frame objects compared before/after both conversions on arbitrary tags). non-trivial = the conversion changed, created or removed at least one frame, or a save was decoded; distinct by (operation, tag description)")
 
@@ -1316,7 +1322,8 @@ def build_v23(frames):
 
 
 def etext(enc, s):
-    return {0: lambda: s.encode("latin-1") + b"\0", 1: lambda: b"\xff\xfe" + s.encode("utf-16-le") + b"\0\0"}[enc]()
+    return {0: lambda: s.encode("latin-1") + b"\0", 1: lambda: b"\xff\xfe" + s.encode("utf-16-le") + b"\0\0",
+            2: lambda: s.encode("utf-16-be") + b"\0\0", 3: lambda: s.encode("utf-8") + b"\0"}[enc]()
 
 
 def build_v24(frames):
@@ -1538,6 +1545,294 @@ V22_IDS = {"TT2": "TIT2", "TP1": "TPE1", "TAL": "TALB", "TRK": "TRCK", "TEN": "T
 SAMPLES = ["id3v22-test.mp3", "too-short.mp3", "silence-44-s.mp3", "vbri.mp3", "bad-xing.mp3", "97-unknown-23-update.mp3"]
 
 
+# ---- duplicate text frames of an old tag (the pre-2.4 way to store several values): every order of encodings
+DUP_IDS = {"TPE1": "TP1", "TIT2": "TT2", "TCOM": "TCM", "TXXX": "TXX"}
+DUP_INSIDE = "abcXYZ 012\u00e9\u00ff"
+DUP_OUTSIDE = DUP_INSIDE + "\u4e2d\u20ac\u03a9"
+
+
+def dup_enc_orders(src):
+    """every order of the encodings the source version allows, for two and three duplicates (v2.4: UTF-16BE and UTF-8 too)"""
+    al = (0, 1) if src in (2, 3) else (0, 1, 2, 3)
+    return [(a, b) for a in al for b in al] + [(a, b, c) for a in al for b in al for c in al]
+
+
+def dup_case(case_seed, encs):
+    """the values of the duplicates: Latin-1 frames hold Latin-1 text, the others text inside or outside Latin-1; sometimes an earlier value again"""
+    rng = random.Random(case_seed * 131 + sum((i + 1) * 7 ** e for i, e in enumerate(encs)))
+    vals = []
+    for e in encs:
+        al = DUP_INSIDE if (e == 0 or rng.random() < 0.35) else DUP_OUTSIDE
+        v = "".join(rng.choice(al) for _ in range(rng.randrange(1, 8))).strip() or "v"
+        if e != 0 and al is DUP_OUTSIDE and all(ord(c) < 256 for c in v):
+            v += "\u4e2d"
+        if vals and rng.random() < 0.2:
+            old = rng.choice(vals)
+            if e != 0 or all(ord(c) < 256 for c in old):
+                v = old
+        vals.append(v)
+    return vals, "".join(rng.choice("abcde") for _ in range(rng.randrange(0, 4))), rng.random() < 0.5
+
+
+def oracle_dup(ctx, case_seed, fid, src, dst, encs, sep):
+    """a hand-built v2.<src> tag holding the text frame <fid> len(encs) times (one value each, encodings in the given order) is loaded with the
+    default translation and saved as v2.<dst>: the save succeeds and the written tag, decoded independently, carries all the values of the
+    duplicates in order (a value that is there twice once) in ONE frame whose encoding byte is valid for the version and represents them"""
+    I = M()[0]
+    before = len(ctx.violations)
+    encs = tuple(encs)
+    vals, desc, via24 = dup_case(case_seed, encs)
+    data = {"dup_seed": case_seed, "fid": fid, "src": src, "dst": dst, "encs": list(encs), "sep": sep, "values": vals}
+    viol = lambda what, cls: _viol(ctx, what, cls, data)
+    name = DUP_IDS[fid] if src == 2 else fid
+    frames = [("TAL" if src == 2 else "TALB", b"\0" + etext(0, "bystander"))]
+    for e, v in zip(encs, vals):
+        frames.append((name, bytes([e]) + (etext(e, desc) if fid == "TXXX" else b"") + etext(e, v)))
+    raw0 = {2: build_v22, 3: build_v23, 4: build_v24}[src](frames) + AUDIO
+    data["source"] = raw0[:len(raw0) - len(AUDIO)].hex()
+    how = "two" if len(encs) == 2 else "three"
+    ctx.oracle_cases += 1
+    ctx.count("oracle:dup-v2.%d->v2.%d" % (src, dst))
+    ctx.case(("dup", case_seed, fid, src, dst, encs, sep))
+    try:
+        if dst == 3 and not via24:
+            t = I.ID3(io.BytesIO(raw0), v2_version=3)
+        else:
+            t = I.ID3(io.BytesIO(raw0))
+            if dst == 3:
+                t.update_to_v23()
+    except Exception as e:
+        data["detail"] = repr(e)[:200]
+        viol("loading a v2.%d tag with %s %s frames failed: %s" % (src, how, fid, type(e).__name__), "dup-load-failed")
+        return 1
+    try:
+        f = io.BytesIO(raw0)
+        t.save(f, v1=0, v2_version=dst, v23_sep=sep)
+    except Exception as e:
+        data["detail"] = repr(e)[:200]
+        viol("a v2.%d tag with %s %s frames in different encodings cannot be saved as v2.%d: %s" % (src, how, fid, dst, type(e).__name__), "dup-save-failed")
+        return 1
+    try:
+        w = W.id3v2_walk(f.getvalue())
+        dec = [dec_frame(i, dst, p) for i, fl, p in w["frames"]]
+    except W.Bad as e:
+        data["detail"] = str(e)[:200]
+        viol("the v2.%d tag saved from a v2.%d source with duplicate %s frames is not walkable / decodable" % (dst, src, fid), "sizes")
+        return 1
+    if w["version"] != dst:
+        viol("saved tag declares version 2.%d, asked for 2.%d" % (w["version"], dst), "version-byte")
+    got = [fr for fr in dec if (fr[0] == "X" and fr[2] == desc) or (fr[0] == "T" and fr[1] == fid)]
+    uniq = []
+    for v in vals:
+        if v not in uniq:
+            uniq.append(v)
+    want = tuple(uniq) if (dst == 4 or sep is None) else (sep.join(uniq),)
+    if len(got) != 1:
+        viol("the duplicate %s frames of a v2.%d tag are written as %d frames in the v2.%d tag" % (fid, src, len(got), dst), "dup-frames")
+    elif got[0][3] != want:
+        data["detail"] = repr(got[0][3])[:200]
+        viol("the values of the duplicate %s frames of a v2.%d tag do not all arrive, in order, in the v2.%d tag" % (fid, src, dst), "dup-values")
+    elif dst == 3 and got[0][2 if fid != "TXXX" else 1] not in (0, 1):
+        viol("v2.3 tag contains a text encoding other than Latin-1 / UTF-16", "encoding")
+    if not any(fr[0] == "T" and fr[1] == "TALB" and fr[3] == ("bystander",) for fr in dec):
+        viol("a frame next to the duplicate %s frames is not preserved" % fid, "dup-bystander")
+    return len(ctx.violations) - before
+
+
+def oracle_dups(ctx, n):
+    rng = ctx.rng
+    fids = sorted(DUP_IDS)
+    for k in range(n):
+        cs = rng.getrandbits(40)
+        for a, src in enumerate((2, 3, 4)):
+            orders = dup_enc_orders(src)
+            if src == 4:
+                orders = [orders[(k * 7 + 11 * j) % len(orders)] for j in range(8)]
+            for j, encs in enumerate(orders):
+                for b, dst in enumerate((4, 3)):
+                    oracle_dup(ctx, cs, fids[(k + j + a) % len(fids)], src, dst, encs, (None, "/", ";")[(k + j + b) % 3])
+            if len(ctx.violations) > 40:
+                return
+
+
+# ---- frames mutagen has no class for (kept as raw bytes of the SOURCE version) and pictures of every type
+def with_padding(tag, n):
+    """the same tag with n bytes of padding inside the declared size"""
+    size = W.syncsafe(tag[6:10]) + n
+    return tag[:6] + syncsafe4(size) + tag[10:] + b"\0" * n
+
+
+UNKNOWN_SIZES = [1, 127, 128, 300, 16384]
+UNKNOWN_IDS = {2: ["XYZ", "ZZ9"], 3: ["XABC", "ZZ99"], 4: ["XABC", "ZZ99"]}
+
+
+def oracle_unknown(ctx, case_seed, src, dst, size, pad, exclude):
+    """a hand-built v2.<src> tag with known text frames and frames of unknown ids (payload `size` bytes, and a small one), optionally TPE1 made
+    unknown through known_frames, is loaded and saved as v2.<dst>: the written tag is valid for ITS version for an independent reader (frames tile
+    the tag under that version's size format), every known frame's value survives, and an unknown frame that is carried over is in the target
+    version's format (same id -> same payload, flags 0). Whether an unknown frame is carried over or dropped is the library's choice."""
+    I = M()[0]
+    before = len(ctx.violations)
+    rng = random.Random(case_seed * 977 + size * 31 + src * 7 + dst)
+    data = {"unk_seed": case_seed, "src": src, "dst": dst, "size": size, "pad": pad, "exclude": exclude}
+    viol = lambda what, cls: _viol(ctx, what, cls, data)
+    names = {2: ("TT2", "TAL", "TP1"), 3: ("TIT2", "TALB", "TPE1"), 4: ("TIT2", "TALB", "TPE1")}[src]
+    title, album, artist = ["".join(rng.choice(LATIN.replace("/", "")) for _ in range(rng.randrange(1, 9))).strip() or "x" for _ in range(3)]
+    ids = UNKNOWN_IDS[src]
+    payloads = {ids[0]: bytes(rng.randrange(1, 256) for _ in range(size)), ids[1]: bytes(rng.randrange(1, 256) for _ in range(rng.choice([1, 5, 130])))}
+    frames = [(names[0], b"\0" + etext(0, title)), (ids[0], payloads[ids[0]]), (names[1], b"\0" + etext(0, album)), (names[2], b"\0" + etext(0, artist))]
+    if rng.random() < 0.6:
+        frames.insert(rng.randrange(len(frames) + 1), (ids[1], payloads[ids[1]]))
+    tag = {2: build_v22, 3: build_v23, 4: build_v24}[src](frames)
+    if pad:
+        tag = with_padding(tag, pad)
+    raw0 = tag + AUDIO
+    if size <= 300:
+        data["source"] = tag.hex()
+    exclude = bool(exclude and src != 2)
+    ctx.oracle_cases += 1
+    ctx.count("oracle:unknown-v2.%d->v2.%d" % (src, dst))
+    ctx.case(("unknown", case_seed, src, dst, size, pad, exclude))
+    try:
+        kw = {}
+        if exclude:
+            kf = dict(I.Frames)
+            del kf["TPE1"]
+            kw["known_frames"] = kf
+        if dst == 3 and rng.random() < 0.5:
+            t = I.ID3(io.BytesIO(raw0), v2_version=3, **kw)
+        else:
+            t = I.ID3(io.BytesIO(raw0), **kw)
+            if dst == 3:
+                t.update_to_v23()
+        f = io.BytesIO(raw0)
+        t.save(f, v1=0, v2_version=dst)
+    except Exception as e:
+        data["detail"] = repr(e)[:200]
+        viol("loading a v2.%d tag with unknown frames and saving it as v2.%d failed: %s" % (src, dst, type(e).__name__), "unknown-failed")
+        return 1
+    raw = f.getvalue()
+    try:
+        w = W.id3v2_walk(raw)
+    except W.Bad as e:
+        data["detail"] = str(e)[:200]
+        viol("a v2.%d tag with an unknown frame of %d bytes saved as v2.%d is not a valid v2.%d tag: its frames do not tile the tag under %s sizes" % (
+            src, size, dst, dst, "plain 32-bit" if dst == 3 else "syncsafe"), "sizes")
+        return 1
+    if w["version"] != dst or w["flags"] != 0:
+        viol("saved tag declares version 2.%d flags %#x, asked for 2.%d" % (w["version"], w["flags"], dst), "version-byte")
+    if raw[w["size"]:] != AUDIO:
+        viol("the audio behind the tag is not what it was", "audio-changed")
+    seen = {}
+    for i, fl, p in w["frames"]:
+        seen.setdefault(i, []).append((fl, bytes(p)))
+    want = {"TIT2": title, "TALB": album}
+    if not exclude:
+        want["TPE1"] = artist
+    for i, v in want.items():
+        got = seen.get(i, [])
+        try:
+            ok = len(got) == 1 and dec_frame(i, dst, got[0][1])[3] == (v,)
+        except W.Bad:
+            ok = False
+        if not ok:
+            viol("the known frame %s next to an unknown frame does not survive v2.%d -> v2.%d" % (i, src, dst), "unknown-known-lost")
+    carried = dict(payloads)
+    if exclude:
+        carried["TPE1"] = b"\0" + etext(0, artist)
+    for i, pl in carried.items():
+        for fl, p in seen.get(i, []):
+            if p != pl or fl != 0:
+                data["detail"] = "frame %s: %d bytes written, %d in the source, flags %#x" % (i, len(p), len(pl), fl)
+                viol("an unknown frame of a v2.%d tag carried over into the v2.%d tag is not in the v2.%d format (size field / flags of the source version)" % (
+                    src, dst, dst), "unknown-wrong-format")
+    if set(seen) - set(want) - set(carried):
+        viol("the saved tag contains frames the source did not have", "unknown-extra")
+    return len(ctx.violations) - before
+
+
+PIC_FORMATS = ["PNG", "JPG", "GIF"]
+
+
+def oracle_pic(ctx, case_seed, src, dst, ptype, fmt):
+    """a v2.2 PIC (three-letter image format) / a v2.3 APIC whose mime is the v2.2 format, of picture type <ptype>, converted to v2.<dst>:
+    the APIC decoded independently carries the source's picture type, description and data, mime image/png / image/jpeg for PNG / JPG"""
+    I = M()[0]
+    before = len(ctx.violations)
+    rng = random.Random(case_seed * 613 + ptype * 17 + src)
+    data = {"pic_seed": case_seed, "src": src, "dst": dst, "ptype": ptype, "fmt": fmt}
+    viol = lambda what, cls: _viol(ctx, what, cls, data)
+    e = rng.choice([0, 1])
+    al = "abc XYZ\u00e9" if e == 0 else "abc \u4e2d\u20ac"
+    pics = []
+    for j in range(rng.choice([1, 2])):
+        desc = ("d%d" % j + "".join(rng.choice(al) for _ in range(rng.randrange(0, 6)))).strip() if (j or rng.random() < 0.8) else ""
+        pics.append(((ptype + 7 * j) % 21, PIC_FORMATS[(PIC_FORMATS.index(fmt) + j) % 3], desc, bytes(rng.randrange(1, 256) for _ in range(rng.choice([5, 127, 128, 300])))))
+    title = "pic title"
+    frames = [("TT2" if src == 2 else "TIT2", b"\0" + etext(0, title))]
+    for pt, fm, desc, img in pics:
+        mime = fm.encode() if src == 2 else fm.encode() + b"\0"
+        frames.append(("PIC" if src == 2 else "APIC", bytes([e]) + mime + bytes([pt]) + etext(e, desc) + img))
+    tag = (build_v22 if src == 2 else build_v23)(frames)
+    raw0 = tag + AUDIO
+    data["source"] = tag.hex() if len(tag) < 400 else tag[:400].hex() + "..."
+    ctx.oracle_cases += 1
+    ctx.count("oracle:pic-v2.%d->v2.%d" % (src, dst))
+    ctx.case(("pic", case_seed, src, dst, ptype, fmt))
+    try:
+        if dst == 3 and rng.random() < 0.5:
+            t = I.ID3(io.BytesIO(raw0), v2_version=3)
+        else:
+            t = I.ID3(io.BytesIO(raw0))
+            if dst == 3:
+                t.update_to_v23()
+        f = io.BytesIO(raw0)
+        t.save(f, v1=0, v2_version=dst)
+        w = W.id3v2_walk(f.getvalue())
+        dec = [dec_frame(i, dst, p) for i, fl, p in w["frames"]]
+    except W.Bad as ex:
+        data["detail"] = str(ex)[:200]
+        viol("the v2.%d tag saved from a v2.%d source with pictures is not walkable / decodable" % (dst, src), "sizes")
+        return 1
+    except Exception as ex:
+        data["detail"] = repr(ex)[:200]
+        viol("loading a v2.%d tag with pictures and saving it as v2.%d failed: %s" % (src, dst, type(ex).__name__), "pic-failed")
+        return 1
+    apics = [fr for fr in dec if fr[0] == "A"]
+    if len(apics) != len(pics):
+        viol("a v2.%d tag with %d pictures has %d APIC frames after the conversion to v2.%d" % (src, len(pics), len(apics), dst), "pic-count")
+    for pt, fm, desc, img in pics:
+        got = [a for a in apics if a[4] == desc]
+        if len(got) != 1 or got[0][5] != img:
+            viol("description / data of a v2.%d picture do not survive the conversion to v2.%d" % (src, dst), "pic-data")
+            continue
+        if got[0][3] != pt:
+            data["detail"] = "picture type %d written, %d in the source (format %s)" % (got[0][3], pt, fm)
+            viol("the picture type of a v2.%d picture with the image format %s is not preserved in the v2.%d tag" % (src, fm if fm in ("PNG", "JPG") else "other", dst), "pic-type")
+        wantm = {"PNG": ("image/png",), "JPG": ("image/jpeg",)}.get(fm, (fm, "image/" + fm.lower()))
+        if got[0][2] not in wantm:
+            viol("the v2.2 image format %s does not become the mime type %s" % (fm, wantm[0]), "pic-mime")
+    if not any(fr[0] == "T" and fr[1] == "TIT2" and fr[3] == (title,) for fr in dec):
+        viol("a text frame next to the pictures is not preserved", "pic-bystander")
+    return len(ctx.violations) - before
+
+
+def oracle_unknown_pics(ctx, n):
+    rng = ctx.rng
+    for k in range(n):
+        cs = rng.getrandbits(40)
+        for j, (src, dst) in enumerate(((4, 3), (4, 4), (3, 4), (3, 3), (2, 4), (2, 3))):
+            for a, size in enumerate(UNKNOWN_SIZES):
+                for b, pad in enumerate((0, (10, 700, 1)[(k + a) % 3])):
+                    oracle_unknown(ctx, cs, src, dst, size, pad, (k + j + a + b) % 2)
+        for ptype in range(21):
+            for src in (2, 3):
+                for dst in (4, 3):
+                    oracle_pic(ctx, cs, src, dst, ptype, PIC_FORMATS[(k + ptype + src + dst) % 3])
+        if len(ctx.violations) > 40:
+            return
+
+
 def oracle_sample(ctx, name):
     """a sample file with a v2.2 / v2.3 tag: save as v2.4; text frames and the year keep their values, sizes are syncsafe"""
     I = M()[0]
@@ -1637,6 +1932,8 @@ def direct_oracle(ctx, n_tags, n_hand):
                 oracle_hand(ctx, cs, src, dst, V1SRC[(k + a) % len(V1SRC)], "default", (0, 1)[(k + b) % 2])
                 if len(ctx.violations) > 40:
                     return
+    oracle_dups(ctx, max(4, n_hand // 2))
+    oracle_unknown_pics(ctx, max(2, n_hand // 8))
     for name in SAMPLES:
         oracle_sample(ctx, name)
     # regression case of the fixed finding: the comment of a plain tag must reach the ID3v1 block
@@ -1805,6 +2102,12 @@ def replay(ctx, payload):
         return oracle_case(ctx, d["case_seed"], d["v2"], d["sep"], d["v1"], d["existing"]) > 0
     if "hist_seed" in d:
         return oracle_history(ctx, d["hist_seed"], d["mode"], d["sep"], d["v1"], d["existing"]) > 0
+    if "unk_seed" in d:
+        return oracle_unknown(ctx, d["unk_seed"], d["src"], d["dst"], d["size"], d["pad"], d["exclude"]) > 0
+    if "pic_seed" in d:
+        return oracle_pic(ctx, d["pic_seed"], d["src"], d["dst"], d["ptype"], d["fmt"]) > 0
+    if "dup_seed" in d:
+        return oracle_dup(ctx, d["dup_seed"], d["fid"], d["src"], d["dst"], d["encs"], d["sep"]) > 0
     if "hand_seed" in d:
         return oracle_hand(ctx, d["hand_seed"], d["src"], d["dst"], d.get("v1src"), d.get("load", "explicit"), d.get("v1opt", 2)) > 0
     if "sample" in d:
